@@ -134,10 +134,12 @@ def tables_c16(out, notes):
         S = SENTINEL
         text_cases = [("{{ [%s] }}" % S, "[Undefined]"), ("{{ (%s, 1) }}" % S, "(Undefined, 1)"),
                       ("{{ {'a': %s} }}" % S, "{'a': Undefined}"), ("{{ [1, [(%s,)]] }}" % S, "[1, [(Undefined,)]]"),
-                      ("a{{ ['b', %s] }}" % S, "a['b', Undefined]")]
+                      ("a{{ ['b', %s] }}" % S, "a['b', Undefined]"),
+                      # the Undefined object of a missing FIELD / of an index out of range
+                      ("{{ [zq_obj.%s] }}" % S, "[Undefined]"), ("{{ (zq_list[7],) }}", "(Undefined,)")]
         env_repr = shape_probe("env_repr_fails", [(t, (lambda r, w=w: r == w)) for t, w in text_cases])
         nat_cases = [("{@ [%s]|string @}" % S, "[Undefined]"), ("{@ (%s, 1)|string @}" % S, "(Undefined, 1)"),
-                     ("{@ {'a': %s}|string @}" % S, "{'a': Undefined}")]
+                     ("{@ {'a': %s}|string @}" % S, "{'a': Undefined}"), ("{@ [zq_obj.%s]|string @}" % S, "[Undefined]")]
         nat_repr = shape_probe("native_repr_fails", [(t, (lambda r, w=w: r == w)) for t, w in nat_cases])
         # cross-check with the classes themselves
         import jinja2
